@@ -294,7 +294,39 @@ def cases_ruby(tier):
                    st.lists(st.fractions(0, 12, max_denominator=997), max_size=1))
 
 
+def blank_out(spec, picks):
+  """every region shows its background only when active and some paragraphs hold nothing but collapsible white space: a region
+  whose only active content is such a paragraph has no content at all and must be absent"""
+  for r in spec["regions"]:
+    r["styles"]["ShowBackground"] = s.ShowBackgroundType.whenActive
+    r["anims"] = [a for a in r["anims"] if a[0] != "ShowBackground"]
+  spec["initials"].pop("ShowBackground", None)
+  if spec["body"] is None:
+    return spec
+  k = 0
+  for n in gen_model.walk(spec["body"]):
+    if n["kind"] == "p":
+      if k < len(picks) and picks[k] is not None:
+        for m in gen_model.walk(n):
+          if m["kind"] == "text":
+            m["text"] = picks[k]
+          elif m is not n:
+            m["space"] = "default"
+        n["space"] = "default"
+        n["kids"] = [x for x in n["kids"] if x["kind"] != "br"]
+      k += 1
+  return spec
+
+
+def cases_blank(tier):
+  small = gen_model.profile(style_density=(0, 2), max_nodes=14, br_styles=False, ruby=False, preserve=False, time_density=3)
+  pick = st.sampled_from([None, " ", "  ", "\n\t", " \n "])
+  return st.builds(lambda spec, extra, picks: {"spec": blank_out(spec, picks), "extra": extra}, gen_model.docspecs(small),
+                   st.lists(st.fractions(0, 12, max_denominator=997), max_size=1), st.lists(pick, min_size=2, max_size=4))
+
+
 PARTS = {
+  "blank": Part("blank", check, strategy=cases_blank, n=(240, 16000), shrinker=SHRINK),
   # ruby parts with their own timing / display / region: snapshots in which a ruby keeps only some of its parts
   "ruby_timed": Part("ruby_timed", check, strategy=cases_ruby, n=(240, 16000), shrinker=SHRINK, required_labels=("kind:ruby", "kind:rtc")),
   "mixed_space": Part("mixed_space", check, strategy=cases_mixed, n=(240, 16000), shrinker=SHRINK,
